@@ -502,14 +502,89 @@ def body_grid1d(inp, N, variant, angle):
     return A, E
 
 
+def _install_relevance_slicing(ctx):
+    """Obligation queries first try a *relevance-sliced* hypothesis set: only those path constraints whose variables all occur in
+    the obligation (plus the sqrt definitions over such variables).  Dropping hypotheses is sound for an `unsat` (= holds)
+    verdict; any other answer falls back to the engine's own query with the full path condition.  Without it the per-point
+    radial-minimum obligations carry the square roots and branch decisions of all the other points (z3 'unknown' under load)."""
+    if getattr(ctx, "_c17_sliced", False):
+        return
+    import time
+    orig = ctx._check_sliced
+    fv_cache = {}
+
+    def fvs(c):
+        hit = fv_cache.get(c.get_id())
+        if hit is None:
+            if len(fv_cache) > 4000:
+                fv_cache.clear()
+            hit = (c, frozenset(ctx._free_vars(c, {})))       # keeps the term alive: z3 re-uses ids of collected terms
+            fv_cache[c.get_id()] = hit
+        return hit[1]
+
+    def sliced(*extra, group=None):
+        S = set()
+        for e in extra:
+            S |= set(ctx._free_vars(e, {}))
+        cons = list(ctx.constraints)
+        keep = [False] * len(cons)
+        changed = True
+        while changed:
+            changed = False
+            for i, c in enumerate(cons):
+                if keep[i]:
+                    continue
+                cg = ctx.groups.get(c.get_id())
+                if cg is not None and cg != group:
+                    continue
+                fv = fvs(c)
+                dv = ctx.defs.get(c.get_id())
+                if dv is not None:
+                    if (fv - {dv.get_id()}) <= S:
+                        keep[i] = True
+                        if dv.get_id() not in S:
+                            S.add(dv.get_id())
+                        changed = True
+                elif fv <= S:
+                    keep[i] = True
+                    changed = True
+        if not all(keep):
+            t0 = time.time()
+            ctx.stats.queries += 1
+            sv = ctx._new_solver()
+            for i, c in enumerate(cons):
+                if keep[i]:
+                    sv.add(c)
+            sv.add(*extra)
+            r = str(sv.check())
+            ctx.stats.solver_time += time.time() - t0
+            if r == "unsat":
+                return "unsat", None
+        return orig(*extra, group=group)
+
+    ctx._check_sliced = sliced
+    ctx._c17_sliced = True
+
+
 def _run(ctx, body, inputs, kwargs, validate_every=16, known=None):
     """hx.run_body with per-key tolerances published by the body (inp['_tol'])"""
+    _install_relevance_slicing(ctx)
     ctx.set_inputs(**{k: v for k, v in inputs.items() if not k.startswith("_")})
     actual, expected = body(inputs, **kwargs)
     tol = inputs.pop("_tol", None) or None
     hx.check_all(ctx, actual, expected, tol=tol, known=known)
     if validate_every:
-        hx.validate(ctx, body, {k: v for k, v in inputs.items() if not k.startswith("_")}, kwargs, actual, every=validate_every)
+        # the reachability twin is a query over the WHOLE path condition (all points' square roots): give it a longer timeout
+        old_to = ctx.timeout_ms
+        ctx.timeout_ms = max(old_to, 90000)
+        if not ctx.logic:
+            ctx.solver.set("timeout", ctx.timeout_ms)
+        try:
+            hx.validate(ctx, body, {k: v for k, v in inputs.items() if not k.startswith("_")}, kwargs, actual, every=validate_every)
+        finally:
+            ctx.timeout_ms = old_to
+            if not ctx.logic:
+                ctx.solver.set("timeout", old_to)
     return actual, expected
 
 
@@ -605,9 +680,11 @@ def case_project2d(ctx, H, W, scales, angle, remove_centre, fork_mask=True, cent
         cy, cx = V.real("cy"), V.real("cx")
         inputs["centre"] = [cy, cx]
         # bound: profile centre inside the extent of the grid
-        ctx.assume(z3.And(cy.t >= oy.t - H * sy / 2.0, cy.t <= oy.t + H * sy / 2.0, cx.t >= ox.t - W * sx / 2.0, cx.t <= ox.t + W * sx / 2.0))
+        for c_ in (cy.t >= oy.t - H * sy / 2.0, cy.t <= oy.t + H * sy / 2.0, cx.t >= ox.t - W * sx / 2.0, cx.t <= ox.t + W * sx / 2.0):
+            ctx.assume(c_)
     else:
-        ctx.assume(z3.And(oy.t >= -H * sy / 2.0, oy.t <= H * sy / 2.0, ox.t >= -W * sx / 2.0, ox.t <= W * sx / 2.0))
+        for c_ in (oy.t >= -H * sy / 2.0, oy.t <= H * sy / 2.0, ox.t >= -W * sx / 2.0, ox.t <= W * sx / 2.0):
+            ctx.assume(c_)
     if angle == "sym":
         inputs["cs"] = _sym_unit(ctx)
     _run(ctx, body_project2d, inputs, {"H": H, "W": W, "scales": scales, "angle": angle, "remove_centre": remove_centre,
@@ -730,7 +807,8 @@ def case_relocate(ctx, kind, N, mode, H=0, W=0):
     inputs["p"] = V.real_array("p", (N, 2))
     if mode == "sym":
         ra, rb = V.real("r_base"), V.real("r_cored")
-        ctx.assume(z3.And(ra.t > 0, rb.t > 0))
+        ctx.assume(ra.t > 0)
+        ctx.assume(rb.t > 0)
         inputs["rmin"] = [ra, rb]
     kw = {"kind": kind, "N": N, "mode": mode}
     if kind == "grid2d":
